@@ -65,6 +65,10 @@ def cases(rng, tier):
     for ko, kr in (([0, 1], [0, 1, 9]), ([0, 1, 2], [0, 1]), ([0, 1], [0, 7]), ([2, 0, 1], [1, 2, 0]), ([0], [0, 3]), ([0, 4], [4])):
         yield ("validate", {"what": "reconstruct_args", "observables": "dict", "results": "dict", "obs_keys": ko, "res_keys": kr,
                             "phases": [[0] for _ in ko], "nob": 1, "always_oracle": True})
+    for bq in (1, 2):
+        for qid in range(8):
+            # every half index next to the valid range, for one- and two-qubit bases (6 and 2 maps)
+            yield ("validate", {"what": "half", "basis_qubits": bq, "qubit_id": qid, "always_oracle": True})
     for fn in ("cut_gates", "find_cuts"):
         for nregbits, nloose in ((0, 1), (2, 0), (1, 1), (0, 0), (0, 2)):
             yield ("validate", {"what": "no_classical", "nregbits": nregbits, "nloose": nloose, "fn": fn, "measure": rng.random() < 0.5,
@@ -151,6 +155,7 @@ def cases(rng, tier):
     for kind, p in c06.cases(rng, "quick"):
         if kind == "reconstruct" and rng.random() < 0.5:
             p["drop"] = rng.random() < 0.7
+            p["extra"] = (not p["drop"]) and rng.random() < 0.5  # one result too many is as wrong as one too few
             p["variant"] = rng.choice(["v2", "v2", "v1shots"])
             yield ("recon", p)
     for bad in ["h", "ccx", "unbound_rzz", "unbound_cp", "opaque2q", "measure", "barrier2", "unbound_unitary_like"]:
@@ -183,7 +188,7 @@ def model_line(kind, payload):
                 "n": n if isinstance(n, str) else frac(n)}
     if w == "reconstruct_args":
         return {"op": "c18.reconstruct_args", "observables": payload["observables"], "results": payload["results"],
-                "phases": [x for row in payload["phases"] for x in row], "obs_keys": payload["obs_keys"], "res_keys": payload["res_keys"]}
+                "phases": [x for row in (payload["phases"][:1] if payload["observables"] == "single" else payload["phases"]) for x in row], "obs_keys": payload["obs_keys"], "res_keys": payload["res_keys"]}
     if w == "basis_id":
         return {"op": "c18.basis_id", "nmaps": payload["nmaps"], "id": payload["id"]}
     if w == "half":
@@ -406,7 +411,7 @@ def _expected_invalid(kind, payload):
     if kind == "sim":
         return True
     if kind == "recon":
-        return True if payload.get("drop") else None
+        return True if (bool(payload.get("drop")) != bool(payload.get("extra"))) else None
     if kind != "validate":
         return None
     w = payload["what"]
